@@ -536,6 +536,7 @@ type exprCase struct {
 	Expr   string       `json:"expr"`
 	Start  []int        `json:"start"`
 	Scalar bool         `json:"scalar,omitempty"`
+	API    bool         `json:"string_api,omitempty"` // MatchAll / MatchSingle / MatchAny vs the wrapper semantics over the reference iteration
 	Pool   *poolPrelude `json:"earlier_document,omitempty"`
 }
 
